@@ -55,7 +55,7 @@ func init() {
 			"the sent set is retried before the buffered messages of the same partition and the bounce state (currentRetries / closing) is set on the same path (C02.sent-before-buffered); parked buffers are flushed in index order and cleared, and highWatermark is written only by newHighWatermark/flushRetryBuffers (C02.flush); " +
 			"one produce request in flight per broker worker: unbuffered bridge, synchronous Produce, tabled senders on brokerProducer.output (C02.single-flight); the retry queue is used strictly FIFO (C02.fifo). " +
 			"NOT covered: the interleaving argument itself, reordering with Retry.Max=0 / abandoned brokers (value- and schedule-dependent).",
-		Rules: []func(*Ctx){c02RouteOnce, c02SentBeforeBuffered, c02Recheck, c02Flush, c02RetryStateKept, c02SingleFlight, c02Fifo, c01ErrLost, c02RetryLevelWidth, c02MarkerCreators, c02SlabNotReused},
+		Rules: []func(*Ctx){c02RouteOnce, c02SentBeforeBuffered, c02Recheck, c02Flush, c02RetryStateKept, c02SingleFlight, c02Fifo, c01ErrLost, c02RetryLevelWidth, c02MarkerCreators, c02SlabNotReused, c04Accounting},
 	})
 }
 
